@@ -21,6 +21,10 @@
 (*          ClipKey = "deep" (history/MC_SchemaRel_clip_deep.cfg) compares *)
 (*          clips by deep equality: refuted on later-enriched copies of a  *)
 (*          clip (pairings copy_features / copy_rec_tag, project enr)      *)
+(*          MatchGuard = "dict_only" (history/MC_SchemaRel_dict_only.cfg): *)
+(*          the null-match test skipped for Mapping types other than dict. *)
+(*          ClipCheck = "assert" with Optimised = TRUE                     *)
+(*          (history/MC_SchemaRel_assert_optimised.cfg).                   *)
 (*  match   Match._validate_match                                          *)
 (*  project _annotations_are_part_of_the_project: loop over the annotated  *)
 (*          clips, error at the first one without a task                   *)
@@ -41,6 +45,9 @@ EXTENDS SchemaRel, TLC, Json
 CONSTANTS MaxLen,        \* all match sequences up to this length (pairing "same")
           SortedLen,     \* plus sorted sequences (multisets) of exactly this length (0 = none)
           NoForeignLen,  \* plus sorted sequences without foreign members of exactly this length (0 = none)
+          MatchGuard,    \* "any_mapping" (the code) | "dict_only" (control: the null-match test is skipped for non-dict mappings)
+          ClipCheck,     \* "raise" (the code) | "assert" (control: the clip test is an assert statement)
+          Optimised,     \* FALSE | TRUE: the interpreter runs with -O (assert statements compiled away)
           RepLen,        \* match sequences up to this length when an annotation / prediction list repeats an event
           OtherLen,      \* match sequences up to this length for the other three pairings (no foreign members)
           WrapLen,       \* match sequences up to this length when annotations / predictions share a sound event
@@ -71,7 +78,8 @@ Shares == {<<1, 0, 0>>, <<2, 0, 0>>, <<1, 2, 0>>, <<0, 0, 1>>}    \* p1~a1; p1~a
 Upto(n) == [i \in 1..n |-> i]
 CER(na, np, ms, pr, ase, pse, pu, al, pl, rc) ==
     [kind |-> "ce", na |-> na, np |-> np, ms |-> ms, pairing |-> pr, ase |-> ase, pse |-> pse, pu |-> pu,
-     al |-> al, pl |-> pl, rc |-> rc]
+     al |-> al, pl |-> pl, rc |-> rc, mp |-> "dict"]
+Mappings == {"dict", "proxy", "userdict", "chainmap", "ordered"}
 CEU(na, np, ms, pr, ase, pse, pu) == CER(na, np, ms, pr, ase, pse, pu, Upto(na), Upto(np), FALSE)
 \* lists that repeat an event: the only one; the first of two, at the end; the first of two, at once
 Repeats == {<<1, 1>>, <<1, 2, 1>>, <<1, 1, 2>>}
@@ -101,7 +109,12 @@ InitCase ==
     \* a prediction and an annotation of the clip that carry the same uuid
     \/ \E pu \in Shares, n \in 0..ShareLen, na \in 1..2, np \in 1..2 :
           \E ms \in SeqsOfLen(Side \X (0..2), n) : c = CEU(na, np, ms, "same", Own, Own, pu)
-    \/ \E s \in 0..1, t \in 0..1 : c = [kind |-> "match", s |-> s, t |-> t]
+    \/ \E s \in 0..1, t \in 0..1, mp \in Mappings : c = [kind |-> "match", s |-> s, t |-> t, mp |-> mp]
+    \* the dict-validation path fed with other Mapping types (top level and nested matches)
+    \/ \E mp \in Mappings \ {"dict"}, na \in 0..1, np \in 0..1, n \in 0..1 : \E ms \in SeqsOfLen(Pairs, n) :
+          c = [CE(na, np, ms, "same") EXCEPT !.mp = mp]
+    \/ \E mp \in Mappings \ {"dict"}, i \in DOMAIN ClipPoints, j \in DOMAIN ClipPoints :
+          c = [kind |-> "clip", st |-> ClipPoints[i], en |-> ClipPoints[j], u |-> 1, enc |-> "num", mp |-> mp]
     \* tasks: every ordered selection of the clips; clip annotations: every sequence of <= 3 clips (repeats = a clip
     \* with two clip annotations); enriched copies only with <= 2 annotations
     \/ \E n \in 0..3, m \in 0..3 : \E ts \in SeqsOfLen(1..3, n), as \in SeqsOfLen(1..3, m), enr \in Enrich :
@@ -109,7 +122,7 @@ InitCase ==
           /\ (m = 3 => enr = <<0, 0, 0>>)
           /\ c = [kind |-> "project", tseq |-> ts, aseq |-> as, enr |-> enr]
     \/ \E i \in DOMAIN ClipPoints, j \in DOMAIN ClipPoints, u \in 1..2, e \in Encs :
-          (e = "int" => u = 1) /\ c = [kind |-> "clip", st |-> ClipPoints[i], en |-> ClipPoints[j], u |-> u, enc |-> e]
+          (e = "int" => u = 1) /\ c = [kind |-> "clip", st |-> ClipPoints[i], en |-> ClipPoints[j], u |-> u, enc |-> e, mp |-> "dict"]
     \/ \E f \in DOMAIN Fields, v \in DOMAIN ScoreValues, e \in {"num", "str"} :
           OptFieldOK(Fields[f], ScoreValues[v]) /\ c = [kind |-> "score", field |-> Fields[f], v |-> ScoreValues[v], enc |-> e]
 
@@ -122,15 +135,19 @@ Fail(why) == pc' = why /\ ok' = FALSE /\ UNCHANGED <<g, c, path, k>>
 Goto(l)   == pc' = l /\ UNCHANGED <<g, c, path, ok>>
 
 (* ---- clip evaluation ---- *)
-CeMatchOk   == pc = "ce" /\ k <= Len(c.ms) /\ MatchHasSide(c.ms[k]) /\ k' = k + 1 /\ UNCHANGED <<g, c, path, pc, ok>>
-CeMatchNull == pc = "ce" /\ k <= Len(c.ms) /\ ~MatchHasSide(c.ms[k]) /\ Fail("E:match between two null objects")
+\* the before-validator looks at whatever mapping it is given; control "dict_only" lets other mappings through unlooked
+NullCaught == ~(MatchGuard = "dict_only" /\ c.mp # "dict")
+CeMatchOk   == pc = "ce" /\ k <= Len(c.ms) /\ (MatchHasSide(c.ms[k]) \/ ~NullCaught) /\ k' = k + 1 /\ UNCHANGED <<g, c, path, pc, ok>>
+CeMatchNull == pc = "ce" /\ k <= Len(c.ms) /\ ~MatchHasSide(c.ms[k]) /\ NullCaught /\ Fail("E:match between two null objects")
 CeMatchesDone == pc = "ce" /\ k > Len(c.ms) /\ Goto("ce_clips") /\ k' = k
 \* the two clips are taken for the same one: by uuid (the code), or (control) only when they are deeply equal
 \* ... or (control "span") also when they are different clips over the same span of the same recording
 ClipsTakenSame == \/ SameClip(c.pairing) /\ (ClipKey \in {"uuid", "span"} \/ c.pairing \in {"same", "copy"})
                   \/ ClipKey = "span" /\ c.pairing = "twin"
-CeClipsOk   == pc = "ce_clips" /\ ClipsTakenSame /\ Goto("ce_dup_t") /\ k' = k
-CeClipsBad  == pc = "ce_clips" /\ ~ClipsTakenSame /\ Fail("E:clips do not match")
+\* control "assert": the test is an assert statement, gone when the interpreter runs optimised
+ClipTestRuns == ~(ClipCheck = "assert" /\ Optimised)
+CeClipsOk   == pc = "ce_clips" /\ (ClipsTakenSame \/ ~ClipTestRuns) /\ Goto("ce_dup_t") /\ k' = k
+CeClipsBad  == pc = "ce_clips" /\ ~ClipsTakenSame /\ ClipTestRuns /\ Fail("E:clips do not match")
 \* what the target bookkeeping is keyed on: the annotation itself, or (control) the sound event it wraps
 TKey(t) == IF MatchKey = "target_sound_event" THEN c.ase[t] ELSE t
 Targets == [i \in DOMAIN SelectSeq([i \in DOMAIN c.ms |-> c.ms[i][2]], LAMBDA x : x # 0) |->
@@ -162,8 +179,8 @@ CeSetTOk  == pc = "ce_set_t" /\ Range(Targets) = Annotated /\ Goto("ce_set_s") /
 CeSetSBad == pc = "ce_set_s" /\ Range(Sources) # 1..c.np /\ Fail("E:not all predicted sound events were matched")
 CeSetSOk  == pc = "ce_set_s" /\ Range(Sources) = 1..c.np /\ Goto("built") /\ k' = k
 (* ---- match ---- *)
-MatchOk   == pc = "match" /\ (c.s # 0 \/ c.t # 0) /\ Goto("built") /\ k' = k
-MatchNull == pc = "match" /\ c.s = 0 /\ c.t = 0 /\ Fail("E:match between two null objects")
+MatchOk   == pc = "match" /\ (c.s # 0 \/ c.t # 0 \/ ~NullCaught) /\ Goto("built") /\ k' = k
+MatchNull == pc = "match" /\ c.s = 0 /\ c.t = 0 /\ NullCaught /\ Fail("E:match between two null objects")
 (* ---- project ---- *)
 \* the annotated clip a is found among the task clips: by uuid (the code), or (control "deep") only by a deeply equal copy
 TaskHit(a, j) == c.tseq[j] = a /\ (ClipKey \in {"uuid", "span"} \/ c.enr[a] = 0)
